@@ -32,7 +32,7 @@ def decoders():
 def run(ctx):
     rnd = random.Random(ctx.seed)
     ctx.expect_ok(run_tlc('Render_MC', MC_CFG % ('ok', 3 if ctx.quick else 4), ctx.workdir, name='render', timeout=3600))
-    pr = Prober(rnd)
+    pr = Prober(rnd, reraise=False)
     obs, texts = [], {}
     nprobe = 6 if ctx.quick else 16
     shaped = 0
@@ -116,8 +116,11 @@ def run(ctx):
                       % (name, texts[oid][0], [hex(x) for x in texts[oid][1]], clause, bad),
                       {'kind': 'render', 'name': name, 'start': [hex(x) for x in texts[oid][1]],
                        'end': [hex(x) for x in texts[oid][2]], 'labels': o['params']})
-    ctx.sample({'text': texts[obs[5]['id']][0], 'labels': obs[5]['params']})
+    if len(obs) > 5:
+        ctx.sample({'text': texts[obs[5]['id']][0], 'labels': obs[5]['params']})
     ctx.extra['code_to_spec'] = {'decoders': len(decoders()), 'probes': nv, 'call_shaped_probes': shaped}
+    from .render import report_raised
+    report_raised(ctx, pr)
     ctx.assumptions += ['decimal / hexadecimal conversion of 64-bit integers is Python\'s (trusted)',
                         'in-domain arguments from the frozen audit; a number is "the argument" if it equals it as '
                         'unsigned or signed 64 / 32 bit value']
